@@ -136,11 +136,10 @@ def _par_rowfunc(row):
 @core.builder('gen150')
 def _b_gen150(step, env):
     def gen():
+        # one-shot generator crossing the 100-row inference sample (values stay within the inferred types: the loader
+        # casts every row with the schema inferred from the sample)
         for i in range(150):
-            if i < 100:
-                yield {'n': i, 't': 's%d' % i}
-            else:
-                yield {'n': i + 0.5, 't': None}
+            yield {'n': i, 't': 's%d' % i if i % 7 else None}
     return gen()
 
 
@@ -162,7 +161,7 @@ def _b_checkpoint(step, env):
 
 # ------------------------------------------------------------------------------------------------
 # alphabets (each instance chosen to collide on resources r1/r2 and fields a/b)
-JOIN_FIELDS = {'c': {'name': 'c', 'aggregate': 'last'}, 'n': {'name': 'a', 'aggregate': 'count'}}
+JOIN_FIELDS = {'b': {'name': 'b', 'aggregate': 'last'}, 'n': {'name': 'a', 'aggregate': 'count'}}
 
 BUILTINS = {
     'add_field': S('add_field', 'z', 'integer', 7),
@@ -187,8 +186,8 @@ BUILTINS = {
     'set_primary_key': S('set_primary_key', ['a']),
     'deduplicate': S('deduplicate'),
     'sort_rows': S('sort_rows', '{a}', reverse=True),
-    'join_keep': S('join', 'r2', ['a'], 'r1', ['a'], JOIN_FIELDS, source_delete=False),
-    'join_delete': S('join', 'r2', ['a'], 'r1', ['a'], JOIN_FIELDS, source_delete=True, mode='inner'),
+    'join_keep': S('join', 'r1', ['a'], 'r2', ['a'], JOIN_FIELDS, source_delete=False),
+    'join_delete': S('join', 'r1', ['a'], 'r2', ['a'], JOIN_FIELDS, source_delete=True, mode='inner'),
     'join_with_self': S('join_with_self', 'r1', ['a'], {'a': None, 'cnt': {'aggregate': 'count'}}),
     'printer': S('printer', header_print={'$fn': 'e1_printer_sink', 'env': True},
                  table_print={'$fn': 'e1_printer_sink', 'env': True}),
